@@ -14,7 +14,7 @@ pub fn prop() -> Prop {
     Prop {
         id: "C09",
         level: "model_checking",
-        rule: "all streams of <=3 rows {k,v,id} over the 15 group keys {a key with a blank in front, one with a blank behind and one that is a blank (blanks are part of a key), \"a\",\"b\",\"\",\"é\",1,null,absent,\"ab\",\"null\",[\"a\"], a key ending in a backslash, a key holding backslash-t} and of 4 (thorough <=6) rows over an 8-key core of them (including the empty stream and streams whose every row is dropped) x 16 upstream pipelines (--skip 1 --take 2^64-1; --unique on a selection without the key; two selections under one name; take 35 and skip 3 take 100 among them; none, select, select of the key only (so that rows repeat), filter, unique, sort by id desc, sort by the mixed-type key, skip+take, split, take 0, select+sort+skip+take) x {--group-by=.k, --group-by=(get . \"k\"), --group-by=.k#0 (a key selection with an index step), --merge} x {json, text output}; long cyclic streams of 17, 40, 300 and 1100 rows; streams with 15..257 distinct keys each coming back; half of the cases of up to 40 rows also with the rows given as files (one row per file; two files); non-trivial = two rows share a key or a row is dropped for its key; distinct by construction; all streams of <=3 rows of every type (arrays, the empty array, objects, scalars, null) through --merge and a --group-by on the type, as input values and as split items, also behind --unique and --sort-by",
+        rule: "all streams of <=3 rows {k,v,id} over the 15 group keys {a key with a blank in front, one with a blank behind and one that is a blank (blanks are part of a key), \"a\",\"b\",\"\",\"é\",1,null,absent,\"ab\",\"null\",[\"a\"], a key ending in a backslash, a key holding backslash-t} and of 4 (thorough <=6) rows over an 8-key core of them (including the empty stream and streams whose every row is dropped) x 16 upstream pipelines (--skip 1 --take 2^64-1; --unique on a selection without the key; two selections under one name; take 35 and skip 3 take 100 among them; none, select, select of the key only (so that rows repeat), filter, unique, sort by id desc, sort by the mixed-type key, skip+take, split, take 0, select+sort+skip+take) x {--group-by=.k, --group-by=(get . \"k\"), --group-by=.k#0 (a key selection with an index step), --merge} x {json, text output}; long cyclic streams of 17, 40, 300 and 1100 rows; streams with 15..257 distinct keys each coming back; half of the cases of up to 4 rows also with the rows given as files (one row per file; two files); non-trivial = two rows share a key or a row is dropped for its key; distinct by construction; all streams of <=3 rows of every type (arrays, the empty array, objects, scalars, null) through --merge and a --group-by on the type, as input values and as split items, also behind --unique and --sort-by",
         explanation: "exactly one value must be printed, after the input ended; it is compared (a) with the documented grouping applied to the rows the same pipeline prints without grouping (differential) and (b) with the reference pipeline",
         assumptions: COMMON_ASSUMPTIONS.to_vec(),
         guards: vec!["rows-given-as-files", "rows-that-are-arrays", "command-line-respelled", "many-distinct-keys", "empty-input", "no-row-survives", "non-string-key-dropped", "absent-key-dropped", "two-rows-share-a-key", "limiter-before-grouper", "empty-string-key", "non-ascii-key", "text-output"],
@@ -126,7 +126,7 @@ fn explore(ctx: &mut Ctx, up: &Up, rows: &[V]) {
             super::pipe::check_respelled(ctx, &case, &obs, &sig);
             // the same rows given as files (one row per file, and two files): the collection is the same and is emitted
             // all the same - the end of the input reaches the grouping stage wherever the input came from
-            if inputs.len() >= 2 && inputs.len() <= 40 && (inputs.len() + gname.len() + text as usize) % 2 == 0 {
+            if inputs.len() >= 2 && inputs.len() <= 4 && (inputs.len() + gname.len() + text as usize) % 2 == 0 {
                 for per_file in [1usize, inputs.len().div_ceil(2)] {
                     let files: Vec<(String, Vec<u8>)> = inputs.chunks(per_file).enumerate().map(|(i, ch)| (format!("g{i}.json"), pipeline::input_text(ch))).collect();
                     let mut fargs = case.args.clone();
